@@ -394,6 +394,37 @@ func NewTarget(kind int, typeSeed uint64) any {
 	return new(any)
 }
 
+// PrefilledTarget returns a target that already holds what decoding prefill (with the standard
+// library, flaky callbacks switched off) leaves in it; for the interface target the value is
+// additionally wrapped so that the interface holds a non-nil pointer now and then, which both
+// codecs must decode *into*.
+func PrefilledTarget(kind int, typeSeed uint64, prefill []byte) any {
+	t := NewTarget(kind, typeSeed)
+	if len(prefill) == 0 {
+		return t
+	}
+	saved := *flakyCtl
+	*flakyCtl = FlakyCtl{}
+	_ = sj.Unmarshal(prefill, t)
+	*flakyCtl = saved
+	if kind == TAny && len(prefill)%3 == 0 {
+		p := t.(*any)
+		switch v := (*p).(type) {
+		case map[string]any:
+			*p = &v
+		case []any:
+			*p = &v
+		case string:
+			*p = &v
+		case float64:
+			*p = &v
+		case nil:
+			*p = new(In1)
+		}
+	}
+	return t
+}
+
 // toFork converts standard-library Numbers inside a dynamic value into the fork's
 // Number type (each codec must be given its own Number type).
 func toFork(v any) any {
